@@ -466,7 +466,8 @@ fn eval_format<'a>(args: &[Option<Value<'a>>]) -> Option<Value<'a>> {
         Value::Null => return Some(Value::Null),
         _ => return None,
     };
-    let decimals = get_int(args.get(1)?)?.max(0) as usize;
+    // MySQL caps the number of decimals at 30; core::fmt panics on a precision above u16::MAX
+    let decimals = get_int(args.get(1)?)?.clamp(0, 30) as usize;
 
     let formatted = format!("{:.prec$}", number, prec = decimals);
     let parts: Vec<&str> = formatted.split('.').collect();
